@@ -1747,6 +1747,12 @@ impl DnsOutgoing {
         self.id = id;
     }
 
+    /// Marks this message as a unicast message: unlike a multicast message,
+    /// which always carries ID 0, it is sent with the ID given to `set_id`.
+    pub fn set_unicast(&mut self) {
+        self.multicast = false;
+    }
+
     pub const fn is_query(&self) -> bool {
         (self.flags & FLAGS_QR_MASK) == FLAGS_QR_QUERY
     }
